@@ -642,6 +642,48 @@ fn verdict_checks(built: &mut Built, log: &mut RunLog, opts: &DriveOpts, in_sche
         }
     }
     if obs.activity() {
+        // (c') a call that moved data and then reports a wait on a stream that already
+        // satisfies the request: the following call must make progress, otherwise the wait
+        // named the wrong stream (a runner that retires a block waiting on an ended stream
+        // would strand its data)
+        if obs.verdict == Verdict::WaitStream && !(built.ins.iter().any(|p| p.is_closed()) || built.outs.iter().any(|p| p.is_closed())) {
+            if let Some((id, need, _)) = obs.named {
+                let inp = built.ins.iter().position(|p| p.id() == id);
+                let outp = built.outs.iter().position(|p| p.id() == id);
+                let sat = match (inp, outp) {
+                    (Some(i), _) => Some((built.ins[i].buffered() >= need, format!("input {i} (buffered {}, need {need})", built.ins[i].buffered()))),
+                    (_, Some(o)) => {
+                        let free = built.outs[o].capacity().saturating_sub(built.outs[o].available());
+                        Some((free >= need, format!("output {o} (free {free}, need {need})")))
+                    }
+                    _ => None,
+                };
+                if let Some((true, desc)) = sat {
+                    let o2 = call(built, in_schedule);
+                    log.ncalls += 1;
+                    let stop = matches!(o2.verdict, Verdict::Eof | Verdict::Panic | Verdict::Error(_));
+                    if o2.verdict == Verdict::Eof {
+                        log.eof_at = Some(log.ncalls);
+                    }
+                    if let Some(p) = &o2.panic {
+                        log.panic = Some(p.clone());
+                    }
+                    if let Verdict::Error(e) = &o2.verdict {
+                        log.error = Some(e.clone());
+                    }
+                    let idle = !o2.activity() && !stop;
+                    log.calls.push(o2);
+                    if idle {
+                        add_finding(
+                            log,
+                            "misdirected-wait",
+                            format!("work() moved data and then reported a wait on {desc}, which already satisfies the request; the next call made no progress"),
+                        );
+                    }
+                    return !stop;
+                }
+            }
+        }
         return true;
     }
     // With an end dropped by the harness, consumption/production on that stream is not
